@@ -115,32 +115,44 @@ func c14ops(names []string) []c14op {
 				return s, nil
 			})
 		}})
-	ops = append(ops, c14op{"ForEachService/mutating", nil,
-		func(p *types.Project) (*types.Project, error) {
-			err := p.ForEachService(nil, func(name string, s *types.ServiceConfig) error {
-				s.Image = "poison"
-				if s.Labels != nil {
-					s.Labels["poison"] = "x"
-				}
-				if s.DependsOn != nil {
-					s.DependsOn["poison"] = types.ServiceDependency{}
-				}
-				if len(s.Command) > 0 {
-					s.Command[0] = "poison"
-				}
-				if s.Build != nil {
-					s.Build.Context = "poison"
-					if s.Build.Args != nil {
-						s.Build.Args["poison"] = nil
+	// the visitor is handed services it may edit freely, whatever the dependency policy of the visit
+	for _, pol := range []struct {
+		name string
+		opts []types.DependencyOption
+	}{{"default", nil}, {"IgnoreDependencies", []types.DependencyOption{types.IgnoreDependencies}},
+		{"IncludeDependencies", []types.DependencyOption{types.IncludeDependencies}}, {"IncludeDependents", []types.DependencyOption{types.IncludeDependents}}} {
+		pol := pol
+		nm := "ForEachService/mutating"
+		if pol.name != "default" {
+			nm += "/" + pol.name
+		}
+		ops = append(ops, c14op{nm, nil,
+			func(p *types.Project) (*types.Project, error) {
+				err := p.ForEachService(nil, func(name string, s *types.ServiceConfig) error {
+					s.Image = "poison"
+					if s.Labels != nil {
+						s.Labels["poison"] = "x"
 					}
-				}
-				if s.HealthCheck != nil {
-					s.HealthCheck.Disable = !s.HealthCheck.Disable
-				}
-				return nil
-			})
-			return nil, err
-		}})
+					if s.DependsOn != nil {
+						s.DependsOn["poison"] = types.ServiceDependency{}
+					}
+					if len(s.Command) > 0 {
+						s.Command[0] = "poison"
+					}
+					if s.Build != nil {
+						s.Build.Context = "poison"
+						if s.Build.Args != nil {
+							s.Build.Args["poison"] = nil
+						}
+					}
+					if s.HealthCheck != nil {
+						s.HealthCheck.Disable = !s.HealthCheck.Disable
+					}
+					return nil
+				}, pol.opts...)
+				return nil, err
+			}})
+	}
 	ops = append(ops, c14op{"ForEachService/named", nil,
 		func(p *types.Project) (*types.Project, error) {
 			err := p.ForEachService([]string{names[0]}, func(name string, s *types.ServiceConfig) error {
